@@ -5,7 +5,7 @@ VERIF = os.path.dirname(os.path.dirname(os.path.abspath(__file__)))
 
 INTRO = '''
 *What exists.*  `lean/Prtpy/` holds import-free executable models of every code path the 20 properties anchor in
-(`Basic`, `Bins`, `Objectives`, `Heap`, `Spec`, `Model/{Simple,KK,CKKF,CG,DP,SNP,RNP,CBLDM,BinCompletion,BCTrace,ILP,Validate}`);
+(`Basic`, `Bins`, `Objectives`, `Heap`, `Spec`, `Model/{Simple,KK,CKKF,CG,DP,SNP,RNP,SNPTrace,CBLDM,BinCompletion,BCTrace,ILP,Validate}`);
 `lean/Driver.lean` is the line-protocol executable the harness talks to; `lean/PrtpyProofs/` holds the proofs
 (one file per topic, all imported by `PrtpyProofs.lean`); `lean/theorems.json` registers, per property, the theorems
 the audit must find in the build with axioms ⊆ {propext, Classical.choice, Quot.sound}.  `harness/` is the Python side:
@@ -36,8 +36,12 @@ are claimed in MANIFEST.json (C15 at level `other`, the rest at level `proof`).
   through the sums-only and the contents-keeping manager, and for list and dict input (section 9).  Repaired in /repo;
   `Prtpy.ckk` (Model/KK.lean) is the code before the repair (kept for the refutations and because the generator shares its
   step function), `Prtpy.ckkF` (Model/CKKF.lean) the code after it; snp and rnp call `ckkF` for their two-way splits.
-* The correspondence for bin completion is at the level of the search, not only of the answer: the implementation's
-  sequence of `find_bin_completions` calls against the trace of `BC.binCompletionT` (`binCompletionT_fst`).
+* The correspondence for the searches is at the level of the search, not only of the answer: bin completion (the sequence
+  of `find_bin_completions` calls against `BC.binCompletionT`, `binCompletionT_fst`), complete Karmarkar–Karp (every popped
+  heap against `ckkFT`, `ckkFT_fst`), snp and rnp (every call of the two-way solver / bounded generator against `snpT`,
+  `rnpFT`; `snpT_fst`, `rnpFT_fst`); complete greedy and CBLDM at every interruption point under a counting clock (C11).
+* One more repair, **F12** (objectives negated numpy unsigned sums with wrap-around: C20, and dp in C07), and one more known
+  finding, **KF7** (C07: ilp on numpy arrays of unsigned integers fails inside python-mip) — section 9; six input presentations instead of five (`array_valueof`), arrays of 32- and 64-bit signed and unsigned types.
 * The harness side of the correspondence runs the implementation calls in a pool of forked worker processes
   (`engine.impl_map`); C15's histories run in the main interpreter.
 * The output types of `prtpy/outputtypes.py` are part of the model, not of the harness: every driver request carries
